@@ -75,7 +75,20 @@ def run_component(c, tier):
     if kind == "kani":
         return kani.run_harnesses(c)
     if kind == "native":
-        return sidecar.native_eval(c, tier)
+        j = sidecar.native_eval(c, tier)
+        # ground obligations that state another property's clause are reported there, not here
+        if c.get("exclude_id"):
+            import re as _re
+            keep, out = [], []
+            for f in j.get("failures", []):
+                (out if _re.search(c["exclude_id"], f.get("id", "")) else keep).append(f)
+            j["failures"] = keep
+            j["out_of_scope_failures"] = [f["id"] for f in out]
+            j["obligations"] = max(0, j.get("obligations", 0) - len(out))
+            if not keep and j.get("status") == "violation":
+                j["status"] = "ok"
+                j["discharged"] = j["obligations"]
+        return j
     raise ValueError(kind)
 
 
